@@ -48,6 +48,28 @@ static std::string meshHash(const Manifold& m) {
 }
 static std::string polyHashS(const Polygons& p) { return hx(polyHash(p)); }
 
+// n bow-ties: pairs of tetrahedra sharing their apex (a pinched vertex each), imported as one mesh
+static MeshGL64 bowTies(int n) {
+  MeshGL64 g;
+  g.numProp = 3;
+  auto vert = [&](double x, double y, double z) {
+    g.vertProperties.insert(g.vertProperties.end(), {x, y, z});
+    return (uint64_t)(g.vertProperties.size() / 3 - 1);
+  };
+  auto tet = [&](uint64_t a, uint64_t b, uint64_t c2, uint64_t d) {
+    for (uint64_t i : {a, c2, b, a, b, d, b, c2, d, c2, a, d}) g.triVerts.push_back(i);
+  };
+  for (int k = 0; k < n; ++k) {
+    double ox = 3.0 * (k % 60), oy = 3.0 * (k / 60);
+    uint64_t apex = vert(ox, oy, 0);
+    uint64_t a = vert(ox + 1, oy, 1), b = vert(ox, oy + 1, 1), c2 = vert(ox - 1, oy - 1, 1.2);
+    tet(a, b, c2, apex);
+    uint64_t d = vert(ox + 1, oy, -1), e = vert(ox, oy + 1, -1), f = vert(ox - 1, oy - 1, -1.2);
+    tet(e, d, f, apex);
+  }
+  return g;
+}
+
 static std::vector<Prog> programs() {
   using M = Manifold;
   std::vector<Prog> P;
@@ -117,6 +139,9 @@ static std::vector<Prog> programs() {
     auto t = Triangulate(p);
     return hx(hashVec(t, 7));
   });
+  // pinched vertices and duplicated edges on small inputs: the gated parallel paths of edge_op.cpp (hook H4 lowers the gates)
+  add("Import 6 bow-ties", false, [] { return meshHash(M(bowTies(6))); });
+  add("Import bow-ties + Boolean", false, [] { return meshHash(M(bowTies(3)) - M::Cube({2, 2, 2}, true).Translate({0.5, 0.5, 0})); });
   // ---- scale L: production thresholds
   // > 1e5 halfedges in the result: reaches the literal gates of edge_op.cpp (FlagStore::run_par, nbEdges > 1e4)
   add("L: Sphere(1,256) - Sphere(1,256).Translate", true, [] { return meshHash(M::Sphere(1, 256) - M::Sphere(1, 256).Translate({0.4, 0.3, 0.2})); });
@@ -125,26 +150,7 @@ static std::vector<Prog> programs() {
     return meshHash(c - c.Rotate(10, 20, 30).Translate({0.3, 0.2, 0.1}));
   });
   // pinched vertices above the parallel threshold of SplitPinchedVerts: 3000 bow-ties (two tetrahedra sharing an apex)
-  add("L: import 3000 bow-ties", true, [] {
-    MeshGL64 g;
-    g.numProp = 3;
-    auto vert = [&](double x, double y, double z) {
-      g.vertProperties.insert(g.vertProperties.end(), {x, y, z});
-      return (uint64_t)(g.vertProperties.size() / 3 - 1);
-    };
-    auto tet = [&](uint64_t a, uint64_t b, uint64_t c2, uint64_t d) {
-      for (uint64_t i : {a, c2, b, a, b, d, b, c2, d, c2, a, d}) g.triVerts.push_back(i);
-    };
-    for (int k = 0; k < 3000; ++k) {
-      double ox = 3.0 * (k % 60), oy = 3.0 * (k / 60);
-      uint64_t apex = vert(ox, oy, 0);
-      uint64_t a = vert(ox + 1, oy, 1), b = vert(ox, oy + 1, 1), c2 = vert(ox - 1, oy - 1, 1.2);
-      tet(a, b, c2, apex);
-      uint64_t d = vert(ox + 1, oy, -1), e = vert(ox, oy + 1, -1), f = vert(ox - 1, oy - 1, -1.2);
-      tet(e, d, f, apex);
-    }
-    return meshHash(M(g));
-  });
+  add("L: import 3000 bow-ties", true, [] { return meshHash(M(bowTies(3000))); });
   add("L: LevelSet 60^3", true, [] {
     return meshHash(M::LevelSet([](vec3 p) { return 1.0 - la::length(p) + 0.1 * std::sin(7 * p.x); }, Box(vec3(-1.3, -1.3, -1.3), vec3(1.3, 1.3, 1.3)), 0.04));
   });
@@ -171,7 +177,7 @@ int main(int argc, char** argv) {
   auto P = programs();
   // quick: a fixed subset (one program per parallel mechanism); thorough: everything incl. scale L
   static const char* QUICK[] = {"Sphere8 - Cube", "BatchBoolean+ of 5", "Hull(sphere verts)", "LevelSet(two spheres)",
-                                "SmoothOut+Refine(3)", "CalculateNormals+Curvature", "CrossSection booleans+Offset", "Triangulate(many holes)"};
+                                "SmoothOut+Refine(3)", "CalculateNormals+Curvature", "CrossSection booleans+Offset", "Triangulate(many holes)", "Import 6 bow-ties"};
   std::vector<int> sel;
   for (int i = 0; i < (int)P.size(); ++i) {
     bool q = false;
@@ -241,6 +247,7 @@ int main(int argc, char** argv) {
       if (!large) {
         kSeqThreshold = 4;
         verif::par_threshold = 0;  // every autoPolicy-gated loop takes its parallel branch
+        verif::gate_override = 0;  // ... and so does every literal 1e4/1e5 gate (hook H4)
       }
       return p.run();
     };
